@@ -185,6 +185,16 @@ _failed: Failed
         // C01: an object is handed on (and stored) only when it is listed on this manifest with a
         // matching hash
         res matches Ok(Some(obj)) ==> object_listed(obj.uri, obj.content, old(collected), &**old(self).cert),
+        // C03 + C04: the generator walks the manifest's item list one entry per call and never skips or
+        // truncates it: "end of objects" (Ok(None)) is reported only when every listed entry has been
+        // consumed ...
+        res matches Ok(None) ==> (*old(items)).remaining().len() == 0,
+        // C03 + C04: ... and an object is yielded for exactly the next entry of the list (its URI is the
+        // CA repository joined with that entry's file name, its bytes match that entry's hash), which
+        // is then the only entry consumed. Every other outcome is an error (abandon / fail).
+        res matches Ok(Some(obj)) ==> (*old(items)).remaining().len() > 0
+            && (*final(items)).remaining() == (*old(items)).remaining().skip(1)
+            && object_for(obj.uri, obj.content, (*old(items)).remaining()[0], old(collected), &**old(self).cert),
         // C41: the update is abandoned (not failed) for a missing or mismatching file
         res matches Err(UpdateError::Failed(_)) ==> !P::PubPoint::infallible() || io_failure(),
 //@ fn PubPoint::process_collected
@@ -383,6 +393,12 @@ spec fn gen_inv<'a, P: ProcessRun>(p: &PubPoint<'a, P>, m: &ValidPointManifest, 
 
 spec fn items_listed(items: Seq<MftItem>, m: &ValidPointManifest) -> bool {
     forall|i: int| 0 <= i < items.len() ==> m.content.lists(#[trigger] items[i])
+}
+
+// C03 + C04: the object (uri, content) is the one the manifest entry `item` names
+spec fn object_for(uri: RsyncUri, content: Bytes, item: MftItem, m: &ValidPointManifest, ca: &CaCert) -> bool {
+    uri == join_spec(ca.ca_repository, item.file_spec())
+    && hash_ok(item.hash_spec(), m.content.alg_spec(), content)
 }
 
 // C01: "listed with a matching hash on the manifest"
